@@ -820,6 +820,17 @@ def str_method(ex, s, name, args, kwargs):
 # numbers: methods / attributes on symbolic numerics
 
 
+def _lowest_terms(ex, v):
+    """numerator / denominator of a symbolic rational r: integers n, d > 0 with r * d == n in lowest terms
+    (coprimality through Bezout coefficients a * n + b * d == 1, skolem constants - no quantifier)"""
+    key = ("lowest-terms", v.t.get_id())
+    if key not in ex.ghost:
+        n, d, a, b = (fresh_term(z3.IntSort(), nm) for nm in ("numer", "denom", "bez_a", "bez_b"))
+        ex.assume(z3.And(d > 0, v.t * z3.ToReal(d) == z3.ToReal(n), a * n + b * d == 1), "numerator/denominator: the value in lowest terms")
+        ex.ghost[key] = (SV(n, INT), SV(d, INT))
+    return ex.ghost[key]
+
+
 def sym_attr(ex, v, name):
     k = v.ty.kind
     cls = X.sym_pytype(v.ty)
@@ -840,7 +851,7 @@ def sym_attr(ex, v, name):
                 r = h(ex, v, name)
                 if r is not NotImplemented:
                     return r
-            raise Unsupported(f"{name} of symbolic fraction")
+            return _lowest_terms(ex, v)[0 if name == "numerator" else 1]
     if k in ("enum", "ienum"):
         if name == "value":
             return enum_value(ex, v)
